@@ -510,3 +510,61 @@ func AtomicCounter() string {
 	wg.Wait()
 	return fmt.Sprint(seen, n.Load())
 }
+
+
+var bufPool = sync.Pool{New: func() any { return new([]byte) }}
+
+// PoolEarlyPut: a producer hands a pooled buffer to a consumer and puts it back into the pool at once; the
+// next Get (LIFO inside a controlled run) returns the same buffer, and writing to it can change what the
+// consumer has not read yet.
+func PoolEarlyPut() string {
+	ch := make(chan *[]byte, 2)
+	go func() {
+		for _, w := range []string{"aa", "bb"} {
+			b := bufPool.Get().(*[]byte)
+			*b = append((*b)[:0], w...)
+			ch <- b
+			bufPool.Put(b) // too early: the consumer may not have read it
+		}
+		close(ch)
+	}()
+	out := ""
+	for b := range ch {
+		out += string(*b)
+	}
+	return out
+}
+
+// OnceLazy: sync.Once-guarded lazy initialisation is safe: every caller sees the built table.
+var onceTable []int
+var onceGuard sync.Once
+
+func OnceLazy() string {
+	res := make(chan int, 2)
+	for i := 0; i < 2; i++ {
+		go func() {
+			onceGuard.Do(func() {
+				onceTable = make([]int, 2)
+				onceTable[0] = 1
+				onceTable[1] = 2
+			})
+			res <- onceTable[0] + onceTable[1]
+		}()
+	}
+	return fmt.Sprint(<-res + <-res)
+}
+
+
+// LateWrite: a goroutine signals "done" and writes afterwards; what main sees when it returns depends on
+// which side of the rendezvous runs on first (each continuation is scheduled on its own).
+func LateWrite() string {
+	done := make(chan bool)
+	out := ""
+	go func() {
+		out += "early;"
+		done <- true
+		out += "late;"
+	}()
+	<-done
+	return out
+}
